@@ -123,6 +123,17 @@ def gen_lines(rng, cv, count, outside):
             if v == "dig":
                 kk = abs(kk) & ((1 << 64) - 1)
             out.append("e2m %s %d %s %s" % (v, rng.below(2), ptok(rng, cv, P, "" if v.startswith("fix") else "P"), hx(kk)))
+    # scalars that are short combinations of powers of the Frobenius eigenvalue (k = c0 + c1*L + c2*L^2 + c3*L^3 mod r, L = p mod r: the
+    # GLS recodings decompose them into exactly these sub-scalars): zero, negative, one-digit and mixed-sign sub-scalars in every position
+    L = cv.p % cv.n
+    pats = [(-1, 0, -4, 6), (1, 0, 0, 0), (0, 1, 0, 0), (0, 0, 0, -1), (5, -3, 0, 2), (-7, 0, 0, 9), (0, 0, 3, 0), (2, -2, 2, -2), (-1, -1, 0, -1),
+            (0, -5, 0, 7), (1, 0, -1, 0), (-3, 0, 5, 0)]
+    for v in [m for m in MUL if m not in ("dig", "gen") and not m.startswith("fix")] + ["fix_lwnaf", "fix_combs"]:
+        fam = [(-1 - rng.below(3), 0, rng.below(25) - 12, rng.below(25) - 12) for _ in range(4)]
+        todo = (pats + fam) if v in ("lwnaf", "mul", "lwreg") else [rng.choice(pats), rng.choice(pats + fam)]
+        for cs in todo + [tuple(rng.choice([0, 0, 1, -1, rng.below(1 << 20), -rng.below(1 << 62)]) for _ in range(4))]:
+            kk = sum(c * pow(L, i, cv.n) for i, c in enumerate(cs)) % cv.n
+            out.append("e2m %s %d %s %s" % (v, rng.below(2), ptok(rng, cv, rng.choice(pool + [cv.g]), "" if v.startswith("fix") else "P"), hx(kk)))
     for _ in range(count):
         k = rng.below(100)
         if k < 22:
